@@ -17,7 +17,7 @@ TECH = {
     "C03": "RF-NEG flow-sensitive decode-error taint (state stores, shifts, unexamined results; OR-accumulation aware) over every function of packet.c/teletext.c + RF-NOWRITE on the link helpers + RF-DOM header/parity-gate/X-26 error-edge dominance + RF-TAB parity-exempt mode table",
     "C05": "RF-DOM capacity-test dominance on the output cursor and slicer calls + RF-INIT per-installed-slicer field completeness and failure disarm + RF-DEP dependence closure of the CRI search limit",
     "C06": "RF-TAB data-unit tables extracted from mux and demux code and compared (id, service, payload bytes, bit order, lengths) + RF-DOM sliced-line frame boundary (edge-filtered reachability) + RF-CORR failure clears the coroutine window + RF-DOM callback after success",
-    "C07": "RF-PURE no static-state writes + RF-IVL capacity intervals + RF-DOM cursor guards",
+    "C07": "RF-PURE no static-state writes + RF-UNDERFLOW guarded unsigned byte accounting (dominating atom on the same operands, unassigned since) + RF-IVL lookahead capacity intervals + RF-DOM cursor/length guards + RF-CORR continuity resynchronisation (edge-filtered reachability)",
     "C09": "RF-IVL interval abstract interpretation of XDS buffer/table subscripts and assertion reachability with field invariants + RF-CORR current-packet invariant (typestate, must-pass-through) + RF-DOM checksum/parity/routing dominance, both implementations",
     "C10": "RF-PAIR ownership typestate for page and network references (NULL-branch correlation, out-parameter and move-on-success summaries) + RF-DOM free/recycle/evict/reuse eligibility dominance + RF-IVL victim array capacity",
     "C11": "RF-CORR path-sensitive typestate (cursor patched or known elsewhere before every free) + RF-TYPESTATE no use of the record after the callback + RF-WHO/RF-CORR single mask writer on every path + RF-DOM Teletext gate + RF-LOCK event_mutex pairing with trylock correlation",
